@@ -726,6 +726,15 @@ def check_chain(rep, drv, rng, fam, c0, style, steps):
                 back = types[j].subtypeSpec.isSuperTypeOf(types[i].subtypeSpec)
                 model_super(rep, drv, exprs[j], exprs[i], back, types[i].subtypeSpec.isSubTypeOf(types[j].subtypeSpec),
                             types[j].subtypeSpec == types[i].subtypeSpec, 'chain-back')
+    # history: keyword clones of the types of the chain (a widened sibling, a re-tagged sibling) must leave the types
+    # themselves alone: what they admit below is compared with the denotation of the declared expression
+    for t_ in types:
+        for kw in ({'subtypeSpec': C.ConstraintsIntersection()},
+                   {'tagSet': tag.initTagSet(tag.Tag(tag.tagClassPrivate, tag.tagFormatSimple, 77))}):
+            try:
+                t_.clone(**kw)
+            except Exception:  # noqa
+                pass
     # admitted values shrink along the chain, and are what the denotation says
     vals = g.candidates(exprs[k], fam, 10)
     admitted = None
